@@ -149,7 +149,12 @@ class Builder:
         for i in range(nlabs):
             want_trough = rng.random() < profile.get("p_trough", 0.35)
             self.specs.append(gen_trough(rng, used, profile) if want_trough else gen_plate(rng, used, profile))
-        if nlabs >= 2 and rng.random() < profile.get("p_same_name", 0.0):
+        if nlabs >= 2 and rng.random() < profile.get("p_twin", 0.0):
+            # an identical twin: a second object with the same name, geometry, limits and contents (a plate and its
+            # replacement on the same carrier site) — still two labware, each with its own history
+            import copy as _copy
+            self.specs[1] = _copy.deepcopy(self.specs[0])
+        elif nlabs >= 2 and rng.random() < profile.get("p_same_name", 0.0):
             # two different labware objects with the same name (an old and a fresh plate on the same carrier site):
             # legal wherever nothing has to resolve a rack label back to an object (not in the replay streams of C01/C03)
             self.specs[1]["name"] = self.specs[0]["name"]
